@@ -779,6 +779,95 @@ def _callee_copy(stmts, func):
     return stmts if changed else None
 
 
+# ---------------------------------------------------------------------------------------------- scalar replacement
+def _namedtuples(tree):
+    """{class name: [field names]} for  X = namedtuple('X', 'a b' / ['a', 'b'])  at module level."""
+    cache = getattr(tree, '_namedtuples', None)
+    if cache is not None:
+        return cache
+    out = {}
+    for s_ in tree.body:
+        if isinstance(s_, ast.Assign) and len(s_.targets) == 1 and isinstance(s_.targets[0], ast.Name) \
+                and isinstance(s_.value, ast.Call) and len(s_.value.args) >= 2 and not s_.value.keywords:
+            f = s_.value.func
+            nm = f.id if isinstance(f, ast.Name) else f.attr if isinstance(f, ast.Attribute) else ''
+            if nm != 'namedtuple':
+                continue
+            spec = s_.value.args[1]
+            fields = None
+            if isinstance(spec, ast.Constant) and isinstance(spec.value, str):
+                fields = spec.value.replace(',', ' ').split()
+            elif isinstance(spec, (ast.List, ast.Tuple)) and all(isinstance(x, ast.Constant) and isinstance(x.value, str)
+                                                                  for x in spec.elts):
+                fields = [x.value for x in spec.elts]
+            if fields:
+                out[s_.targets[0].id] = fields
+    tree._namedtuples = out
+    return out
+
+
+def scalar_replace(func, tree):
+    """t = NT(a=e1, b=e2) with t used only as t.a / t.b  ->  t__a = e1; t__b = e2 and the field reads renamed (the
+    record only groups values; evaluation order of e1, e2 is kept)."""
+    nts = _namedtuples(tree)
+    if not nts:
+        return False
+    st = _stores(func.body)
+    changed = False
+    for n in list(_walk_own(func.body)):
+        if not (isinstance(n, ast.Assign) and len(n.targets) == 1 and isinstance(n.targets[0], ast.Name)
+                and isinstance(n.value, ast.Call) and isinstance(n.value.func, ast.Name) and n.value.func.id in nts):
+            continue
+        t = n.targets[0].id
+        fields = nts[n.value.func.id]
+        if st.get(t) != 1 or any(isinstance(a, ast.Starred) for a in n.value.args) or any(k.arg is None for k in n.value.keywords):
+            continue
+        vals = {}
+        order = []
+        for f_, a in zip(fields, n.value.args):
+            vals[f_] = a
+            order.append(f_)
+        bad = False
+        for k in n.value.keywords:
+            if k.arg not in fields or k.arg in vals:
+                bad = True
+            vals[k.arg] = k.value
+            order.append(k.arg)
+        if bad or set(vals) != set(fields):
+            continue
+        par = {}
+        for x in ast.walk(func):
+            for c in ast.iter_child_nodes(x):
+                par[id(c)] = x
+        uses = [x for x in ast.walk(func) if isinstance(x, ast.Name) and x.id == t and isinstance(x.ctx, ast.Load)]
+        if not uses or not all(isinstance(par.get(id(u)), ast.Attribute) and par[id(u)].attr in fields
+                               and isinstance(par[id(u)].ctx, ast.Load) for u in uses):
+            continue
+        # rewrite
+        new = []
+        for f_ in order:
+            new.append(ast.copy_location(ast.Assign(targets=[ast.Name(id='%s__%s' % (t, f_), ctx=ast.Store())], value=vals[f_]), n))
+
+        class RW(ast.NodeTransformer):
+            def visit_Attribute(self, a):
+                if isinstance(a.value, ast.Name) and a.value.id == t and a.attr in fields and isinstance(a.ctx, ast.Load):
+                    return ast.copy_location(ast.Name(id='%s__%s' % (t, a.attr), ctx=ast.Load()), a)
+                return self.generic_visit(a)
+
+        def blk(stmts, f2):
+            if any(x is n for x in stmts):
+                out = []
+                for x in stmts:
+                    out.extend(new if x is n else [x])
+                return out
+            return None
+        _Blocks(blk).run(func)
+        RW().visit(func)
+        ast.fix_missing_locations(func)
+        changed = True
+    return changed
+
+
 # ---------------------------------------------------------------------------------------------- temp forwarding
 def _reaches_first(e, t):
     """'hit' when the local t is the first thing expression e evaluates that is not a plain name / constant /
@@ -1139,6 +1228,9 @@ def simple_passes(modules, log):
             _CLS[0] = cls
             if starargs(fn):
                 log.append('star-argument tuple expanded in %s' % q)
+                changed = True
+            if scalar_replace(fn, m.tree):
+                log.append('record of values replaced by its fields in %s' % q)
                 changed = True
             for name, f in (('constant loop unrolled', lambda b, f_, cls=cls: ur.block(b, f_, cls)),
                             ('dispatch table turned into an if-chain', lambda b, f_, cls=cls: dd.block(b, f_, cls)),
